@@ -1122,6 +1122,37 @@ func checkSeg(sg *Seg) *failure {
 			}
 		}
 	}
+	// the other read path: Fragment.GetSampleInterval over all samples of a one-track one-trun fragment returns the same
+	// samples, first decode time and bytes (its data offsets are relative to the moof start as well)
+	for i, df := range dfs {
+		if len(df.Moof.Trafs) != 1 || len(df.Moof.Traf.Truns) != 1 {
+			continue
+		}
+		track := df.Moof.Traf.Tfhd.TrackID
+		want := sr.runs[i].expect[track]
+		if len(want) == 0 || int(track) >= len(sr.trexs) || sr.trexs[track] == nil {
+			continue
+		}
+		var si mp4.SampleInterval
+		var err error
+		p := hx.Try(func() { si, err = df.GetSampleInterval(sr.trexs[track], 1, uint32(len(want))) })
+		if c := cls(p, err); c != 'o' {
+			return &failure{"Fragment.GetSampleInterval", map[byte]string{'p': "panic", 'e': "error"}[c], fmt.Sprintf("fragment %d samples 1..%d", i, len(want))}
+		}
+		var data []byte
+		for _, w := range want {
+			data = append(data, w.Data...)
+		}
+		if len(si.Samples) != len(want) || si.FirstDecodeTime != want[0].DecodeTime || !bytes.Equal(si.Data, data) {
+			return &failure{"Fragment.GetSampleInterval", "interval", fmt.Sprintf("fragment %d: interval 1..%d has %d samples, first decode time %d (added %d), data %s (added %s)",
+				i, len(want), len(si.Samples), si.FirstDecodeTime, want[0].DecodeTime, hx.Hex(si.Data), hx.Hex(data))}
+		}
+		for k := range want {
+			if si.Samples[k] != want[k].Sample {
+				return &failure{"Fragment.GetSampleInterval", "interval-sample", fmt.Sprintf("fragment %d sample %d: added %s, interval has %s", i, k, hs(want[k].Sample), hs(si.Samples[k]))}
+			}
+		}
+	}
 	return nil
 }
 
@@ -1458,6 +1489,45 @@ func probeEncodeTwice() *failure {
 	return nil
 }
 
+// probeBareAfterOpt: the witness of C05_encodes_opt_bare_refuted on the real code (same class as finding C05-F10: additions
+// after an Encode with OptimizeTrun): 2 equal samples, Encode with OptimizeTrun (the trun keeps no per-sample field),
+// 1023 more equal samples, Encode: every value is the tfhd default, but the trun now has 1025 samples and no per-sample
+// field, which DecodeTrun refuses.  A plain history of 1025 equal samples (ONE Encode) must round-trip (fix 6c7a902).
+func probeBareAfterOpt() *failure {
+	f, _ := mp4.CreateFragment(1, 1)
+	var want []mp4.FullSample
+	add := func(n int) {
+		for i := 0; i < n; i++ {
+			s := mp4.FullSample{Sample: mp4.Sample{Flags: 0x1010000, Dur: 10, Size: 1}, DecodeTime: uint64(10 * len(want)), Data: []byte{byte(len(want))}}
+			f.AddFullSample(s)
+			want = append(want, s)
+		}
+	}
+	add(2)
+	if _, c := encodeFrag(f, true, false); c != 'o' {
+		return &failure{"Fragment.Encode", "error", "two equal samples do not encode"}
+	}
+	add(1023)
+	b, c := encodeFrag(f, true, false)
+	if c != 'o' {
+		return &failure{"Fragment.Encode", "error", "second Encode fails"}
+	}
+	df, dc := decodeAll(b, false)
+	if dc != 'o' {
+		return &failure{"Fragment.Encode", "additions-after-optimised-encode", fmt.Sprintf("CreateFragment(1,1); AddFullSample x 2 (equal); OptimizeTrun; Encode; AddFullSample x 1023 (equal); Encode writes a trun with flags %#x and %d samples: DecodeFile refuses it (sampleCount is big but no sample data present)", f.Moof.Traf.Trun.Flags, f.Moof.Traf.Trun.SampleCount())}
+	}
+	got, gc := getFull(df.Segments[0].Fragments[0], nil)
+	if gc != 'o' || len(got) != len(want) {
+		return &failure{"roundtrip", "sample-count", "the fragment encoded twice reads back another number of samples"}
+	}
+	for i := range want {
+		if d := sameFull(want[i], got[i]); d != "" {
+			return &failure{"roundtrip", d, fmt.Sprintf("sample %d differs after two optimised Encodes of equal samples", i)}
+		}
+	}
+	return nil
+}
+
 // probeMixed: metadata-only and full samples mixed in one fragment (finding C05-F8): the mdat header announces the lazy
 // size only while the full samples' data is written before the caller's data
 func probeMixed() *failure {
@@ -1523,6 +1593,10 @@ func cmdSearch(seed uint64, n int, exh int) {
 	if f := probeEmsg(); f != nil {
 		fmt.Fprintf(out, "FAIL\t%s\t%s\t%s\t%s\n", f.site, f.class, "probe:emsg (harness/c05/main.go probeEmsg)", f.desc)
 	}
+	evals++
+	if f := probeBareAfterOpt(); f != nil {
+		fmt.Fprintf(out, "FAIL\t%s\t%s\t%s\t%s\n", f.site, f.class, "probe:bareafteropt (harness/c05/main.go probeBareAfterOpt)", f.desc)
+	}
 	// probes with metadata-only samples of huge payloads: only the data-offset oracle can be evaluated
 	big := []uint32{0xfffffff0, 0x80000000, 0x7ffffff0, 0x40000000}
 	for i := 0; i < n/20+8; i++ {
@@ -1581,6 +1655,14 @@ func cmdReplay(w string) {
 			f = probeMixed()
 		}
 		if f != nil {
+			fmt.Fprintf(out, "FAIL\t%s\t%s\t%s\t%s\n", f.site, f.class, w, f.desc)
+		} else {
+			fmt.Fprintln(out, "HOLDS")
+		}
+		return
+	}
+	if strings.HasPrefix(w, "probe:bareafteropt") {
+		if f := probeBareAfterOpt(); f != nil {
 			fmt.Fprintf(out, "FAIL\t%s\t%s\t%s\t%s\n", f.site, f.class, w, f.desc)
 		} else {
 			fmt.Fprintln(out, "HOLDS")
